@@ -1019,6 +1019,19 @@ class PathSum(object):
         if xc is None:
             return None
         cands = c[1] if c[0] == 'tuple' else (c,)
+        if x[0] == 'exc':
+            # an exception caught by `except B`: its class is B or any
+            # subclass of B
+            bound = ('cls', xc[1]) if xc[0] == 'repo' else ('builtin', xc[1])
+            res = False
+            for k in cands:
+                if self._subclass(xc, k):
+                    return True
+                kc = ('repo', k[1]) if k[0] == 'cls' else (
+                    ('name', k[1]) if k[0] in ('ext', 'builtin') else None)
+                if kc is None or self._subclass(kc, bound) is not False:
+                    res = None      # k may lie below the bound
+            return res
         res = False
         for k in cands:
             r = self._subclass(xc, k)
